@@ -51,6 +51,12 @@ def gen(seed, idx, tier):
     feats.update({"eq_many": True, "tiny": bool(r.random() < 0.7)})
   sleep = bool(r.random() < 0.25)
   spec, rejected = scen.pick_model(seed, idx, features=feats, curated_p=0.15)
+  # The reference of this check is the same world inside a batch whose other worlds differ. Under the sweep-and-prune broadphase the
+  # position of one world's candidate pairs in the strided work list - and with it the listing order of its contacts and the round-off of
+  # everything summed over them - depends on how many candidates the other worlds have (DESIGN 7, C09a): a bit-exact twin comparison is
+  # only sound under the N x N broadphase, so that is what this check uses (SAP is exercised by C09, C11, C12, C16, C17).
+  if spec.get("mopt"):
+    spec["mopt"].pop("broadphase", None)
   if sleep:
     spec["opt"]["sleep"] = True
     spec["opt"]["sleep_tolerance"] = 0.05
@@ -244,6 +250,8 @@ def run(sc):
       for op in after[k]:
         for cx in (ca, cb, cf):
           core.apply_op(cx, op)
+      if sc.get("_debug_at") == k:  # in-process debugging aid for replays: hand out the twin Data objects right before step k+1
+        return {"_debug": (mjm, m, A, B, F), "violations": [], "stats": stats}
       for d in (A, B, F):
         mjw.step(m, d)
       stats["sim_time"] += float(mjm.opt.timestep) * nworld * 3
